@@ -79,6 +79,8 @@ class AccfgGen:
             st = {"k": "sl", "acc": a, "vals": [self.pick(scope) for _ in range(p["n_fields"][a])], "gap": []}
             if p.get("n_launch"):
                 st["lvals"] = [r.choice(p["launch_pool"]) for _ in range(p["n_launch"][a])]
+            if p.get("prethread") and r.random() < p["prethread"]:
+                st["link"] = True
             if p["gap"] and r.random() < 0.4:
                 for _ in range(r.randint(1, 2)):
                     g = r.choice(["pure", "opq", "call"])
@@ -193,23 +195,37 @@ def emit(ast, acc_names=None, vty="i32", decls=()) -> str:
     names = acc_names or [{"name": f"acc{a}", "fields": FIELD_NAMES[: ast["n_fields"][a]]} for a in range(ast["n_acc"])]
 
     def stmts(ind, body):
+        # truthful pre-existing threading (C07): a setup marked "link" consumes the state of the previous setup
+        # of its accelerator in the same block, provided nothing that may touch the accelerator sits in between
+        last: dict = {}
         for s in body:
-            stmt(ind, s)
+            k = s["k"]
+            if k in ("for", "if") or (k == "call" and s["eff"] != "none"):
+                last.clear()
+            if k == "sl" and s.get("gap") and any(g["k"] == "call" and g["eff"] != "none" for g in s["gap"]):
+                stmt(ind, s, last.get(s["acc"]) if s.get("link") else None, last)
+                last.clear()
+                continue
+            stmt(ind, s, last.get(s.get("acc")) if s.get("link") else None, last)
 
-    def stmt(ind, s):
+    def stmt(ind, s, link=None, last=None):
         k = s["k"]
         if k == "sl":
             acc = names[s["acc"]]
             st, tk = fresh("s"), fresh("t")
             fs = ", ".join(f'"{f}" = {v} : {vty}' for f, v in zip(acc["fields"], s["vals"]))
             an = acc["name"]
-            e(ind, f'{st} = accfg.setup "{an}" to ({fs}) : !accfg.state<"{an}">')
+            frm = f" from {link}" if link else ""
+            e(ind, f'{st} = accfg.setup "{an}"{frm} to ({fs}) : !accfg.state<"{an}">')
+            if last is not None:
+                last[s["acc"]] = st
             lv = s.get("lvals", [])
             lnames = ", ".join(f'"{n}"' for n in acc.get("launch_fields", [])[: len(lv)])
             largs = "".join(f"{v}, " for v in lv)
             ltys = "".join(f"{vty}, " for _ in lv)
             e(ind, f'{tk} = "accfg.launch"({largs}{st}) <{{param_names = [{lnames}], accelerator = "{an}"}}> : ({ltys}!accfg.state<"{an}">) -> !accfg.token<"{an}">')
-            stmts(ind, s.get("gap", []))
+            for g in s.get("gap", []):
+                stmt(ind, g)
             e(ind, f'"accfg.await"({tk}) : (!accfg.token<"{an}">) -> ()')
         elif k == "call":
             eff = {"none": '"accfg.effects" = #accfg.effects<none>, ', "full": '"accfg.effects" = #accfg.effects<full>, ', "unannotated": ""}[s["eff"]]
